@@ -660,6 +660,9 @@ def r85(ctx):
     et, content, check = [a.arg for a in fn.args.args[1:4]]
     g = CFG(fn)
     atoms = {'dict': None, 'len': None, 'key': None, 'type': None}
+    # `for key, t in <metadata>.items()`: t is the declared type of key
+    item_vars = [unparse(l.target.elts[1]) for l in walk_shallow(fn) if isinstance(l, ast.For) and isinstance(l.target, ast.Tuple) and len(l.target.elts) == 2
+                 and isinstance(l.iter, ast.Call) and isinstance(l.iter.func, ast.Attribute) and l.iter.func.attr == 'items' and 'metadata' in unparse(l.iter)]
     for i in walk_shallow(fn):
         if not (isinstance(i, ast.If) and any(isinstance(x, ast.Raise) for x in i.body)):
             continue
@@ -671,7 +674,7 @@ def r85(ctx):
         elif ('.get(' in t and 'None' in t) or ('not in' in t and content in t):
             if 'isinstance' not in t:
                 atoms['key'] = i
-        if 'isinstance(' in t and '.get(' in t and 'metadata' in t and t.startswith('not'):
+        if 'isinstance(' in t and '.get(' in t and t.startswith('not') and ('metadata' in t or any(v_ in t for v_ in item_vars)):
             atoms['type'] = i
     for k, i in atoms.items():
         ok = i is not None
@@ -680,6 +683,10 @@ def r85(ctx):
             node = g.node_for(i)
             conds = [(unparse(c.ast), br) for (c, br) in g.guard_branches(node, atoms=True)]
             meta = any('metadata' in t and ('is not None' in t or '!= None' in t) and br for (t, br) in conds)
+            if not meta:
+                # any spelling (early return when there is no metadata, `is None` with else...): unreachable when the type declares none
+                ge_ = GuardEval(prog, 'Event', {('isnone', f'{et}.metadata'): True, ('isnone', f'{et}._metadata'): True})
+                meta = any(ge_.ev(c.ast) is (not br) for (c, br) in g.guard_branches(node, atoms=True) if c.ast is not None)
             chk = any(t == check and br for (t, br) in conds)
             inloop = any(isinstance(l, ast.For) and any(x is i for x in ast.walk(l)) and 'metadata' in unparse(l.iter) for l in walk_shallow(fn))
             if k == 'dict':
